@@ -174,6 +174,19 @@ class Pipeline:
             run.tick("publish:mkdir:before:" + os.path.relpath(d, run.root))
             os.makedirs(d, exist_ok=True)
         p = os.path.join(d, fname)
+        work = getattr(self, "_work", None)
+        if work:
+            # like the workflow engine, every task first writes its output in its own task directory under the work directory
+            # (same file name, same relative prefix) and publishes it afterwards
+            h = sha(name, fname)
+            tdir = os.path.join(work, h[:2], h[2:], name)
+            run.tick("work:task:before:" + fname)
+            os.makedirs(tdir, exist_ok=True)
+            with open(os.path.join(tdir, fname), "w") as f:
+                if fname == "selected_plate":
+                    f.write(str(content))
+                else:
+                    json.dump(content, f, sort_keys=True)
         run.tick("publish:before:" + os.path.relpath(p, run.root))
         tmp = p + ".part"
         with open(tmp, "w") as f:
@@ -382,6 +395,7 @@ class Pipeline:
             raise PipelineFailure(1, "nextflow: unknown mode %r" % mode)
 
         # work directory appears first (nextflow creates it at start-up)
+        self._work = work
         if work:
             if not os.path.isdir(work):
                 run.tick("work:mkdir:before")
